@@ -4,6 +4,10 @@
 #include <cerrno>
 #include <unistd.h>
 #include <sys/mman.h>
+#include <pthread.h>
+#include <signal.h>
+#include <atomic>
+#include <array>
 extern "C" {
 #include "qlibc.h"
 }
@@ -107,17 +111,93 @@ void check_file(Src &s, Ctx &c) {
     }
     c.check_san("md5_file");
 }
+
+// concurrent callers: 2..4 threads hash their own buffers and their own files at the same time,
+// several rounds each; every result must still equal the reference for that thread's input (the
+// functions take no state but their arguments).  In the ThreadSanitizer build any race report on
+// library state decides as well.
+std::atomic<int> g_tsan_reports{0};
+bool g_conc_only = false;
+struct ConcArg { const std::string *buf; std::string path; long off, nb; int rounds; pthread_barrier_t *bar; std::vector<Result> res; std::vector<std::array<uint8_t, 16>> fd; std::vector<int> fok; };
+void *conc_worker(void *a) {
+    ConcArg *ca = (ConcArg *)a;
+    pthread_barrier_wait(ca->bar);
+    for (int r = 0; r < ca->rounds; r++) {
+        ca->res[(size_t)r] = run_lib((const uint8_t *)ca->buf->data(), ca->buf->size());
+        alignas(16) uint8_t d[16]; memset(d, 0, 16);
+        ca->fok[(size_t)r] = qhashmd5_file(ca->path.c_str(), (off_t)ca->off, (ssize_t)ca->nb, d) ? 1 : 0;
+        memcpy(ca->fd[(size_t)r].data(), d, 16);
+    }
+    return nullptr;
+}
+void check_concurrent(Src &s, Ctx &c) {
+    int nt = (int)s.range(2, 4), rounds = (int)s.range(2, g_conc_only ? 4 : 8);
+    if (g_tmp.empty()) { const char *td = getenv("TMPDIR"); g_tmp = std::string(td ? td : "/dev/shm") + "/vf-hash-" + std::to_string(getpid()) + ".bin"; }
+    std::vector<std::string> bufs((size_t)nt), files((size_t)nt);
+    std::vector<ConcArg> ca((size_t)nt);
+    pthread_barrier_t bar; pthread_barrier_init(&bar, nullptr, (unsigned)nt);
+    for (int i = 0; i < nt; i++) {
+        size_t n = s.boolean() ? (size_t)s.range(1, 300) : (size_t)s.range(300, g_conc_only ? 20000 : 200000);
+        bufs[(size_t)i].assign(n, '\0'); fill(bufs[(size_t)i], (int)s.range(0, 4), (uint32_t)s.range(0, 65535));
+        size_t flen = (size_t)s.range(40000, g_conc_only ? 150000 : 600000);         // more than one 32 KiB read block
+        files[(size_t)i].assign(flen, '\0'); fill(files[(size_t)i], (int)s.range(0, 4), (uint32_t)s.range(0, 65535));
+        ca[(size_t)i].path = g_tmp + ".t" + std::to_string(i);
+        FILE *f = fopen(ca[(size_t)i].path.c_str(), "wb");
+        if (!f) throw CaseStop{"cannot write temp file"};
+        fwrite(files[(size_t)i].data(), 1, flen, f); fclose(f);
+        ca[(size_t)i].buf = &bufs[(size_t)i];
+        ca[(size_t)i].off = s.boolean() ? 0 : s.range(0, 2000);
+        ca[(size_t)i].nb = s.boolean() ? 0 : s.range(32769, (long)flen - ca[(size_t)i].off);
+        ca[(size_t)i].rounds = rounds; ca[(size_t)i].bar = &bar;
+        ca[(size_t)i].res.resize((size_t)rounds); ca[(size_t)i].fd.resize((size_t)rounds); ca[(size_t)i].fok.assign((size_t)rounds, 0);
+    }
+    c.op("%d threads x %d rounds: each hashes its own buffer (%zu.. bytes) with all five functions and its own file (%zu.. bytes) with qhashmd5_file, concurrently", nt, rounds, bufs[0].size(), files[0].size());
+    int before = g_tsan_reports.load();
+    std::vector<pthread_t> th((size_t)nt);
+    sigset_t all, old; sigfillset(&all); pthread_sigmask(SIG_BLOCK, &all, &old);       // the watchdog signal stays with the main thread
+    for (int i = 0; i < nt; i++) pthread_create(&th[(size_t)i], nullptr, conc_worker, &ca[(size_t)i]);
+    pthread_sigmask(SIG_SETMASK, &old, nullptr);
+    for (int i = 0; i < nt; i++) pthread_join(th[(size_t)i], nullptr);
+    pthread_barrier_destroy(&bar);
+    for (int i = 0; i < nt; i++) unlink(ca[(size_t)i].path.c_str());
+    for (int i = 0; i < nt; i++) {
+        const std::string &x = bufs[(size_t)i]; const std::string &fc = files[(size_t)i];
+        uint8_t e5[16], e128[16], ef[16];
+        ref::md5((const uint8_t *)x.data(), x.size(), e5);
+        ref::murmur3_128((const uint8_t *)x.data(), x.size(), 0, e128);
+        uint32_t m = ref::murmur3_32((const uint8_t *)x.data(), x.size(), 0), f32 = ref::fnv1_32((const uint8_t *)x.data(), x.size());
+        uint64_t f64 = ref::fnv1_64((const uint8_t *)x.data(), x.size());
+        size_t len = ca[(size_t)i].nb == 0 ? fc.size() - (size_t)ca[(size_t)i].off : (size_t)ca[(size_t)i].nb;
+        ref::md5((const uint8_t *)fc.data() + ca[(size_t)i].off, len, ef);
+        for (int r = 0; r < rounds; r++) {
+            const Result &g = ca[(size_t)i].res[(size_t)r];
+            const char *bad = nullptr;
+            if (!g.md5ok || memcmp(g.md5, e5, 16)) bad = "qhashmd5"; else if (g.m32 != m) bad = "qhashmurmur3_32"; else if (!g.m128ok || memcmp(g.m128, e128, 16)) bad = "qhashmurmur3_128";
+            else if (g.f32 != f32) bad = "qhashfnv1_32"; else if (g.f64 != f64) bad = "qhashfnv1_64";
+            else if (!ca[(size_t)i].fok[(size_t)r] || memcmp(ca[(size_t)i].fd[(size_t)r].data(), ef, 16)) bad = "qhashmd5_file";
+            if (bad) c.fail(FUNC, "hash:concurrent", "%s gave a wrong result in thread %d (round %d) while %d other thread(s) were hashing other data: the result depends on more than the input", bad, i, r, nt - 1);
+        }
+    }
+    int n = g_tsan_reports.load() - before;
+    if (n > 0) c.fail(FUNC, "hash:data-race", "ThreadSanitizer reported %d data race(s) between threads hashing unrelated inputs", n);
+    c.check_san("concurrent hashing");
+    c.nontrivial = true;
+    c.tag("concurrent_callers");
+}
 }  // namespace
+extern "C" void __tsan_on_report(void *) { g_tsan_reports++; }
 
 bool vf_configure(Ctx &c) {
     if (c.mode != "C18") return false;
     c.deciding = FUNC | MEM | CRASH | HANG; c.noteonly = LEAK;
     if (const char *w = ref::selftest()) { fprintf(stderr, "reference implementation fails its published vectors: %s\n", w); exit(2); }
     atexit([] { if (!g_tmp.empty()) unlink(g_tmp.c_str()); });
+    g_conc_only = getenv("VF_CONC_ONLY") != nullptr;
     return true;
 }
 
 void run_case(Src &s, Ctx &c) {
+    if (g_conc_only || s.chance(1, 12)) { check_concurrent(s, c); return; }
     if (s.chance(1, 5)) { check_file(s, c); c.tag("file_range"); return; }
     int lk = s.pick({6, 3, 1});
     size_t n = lk == 0 ? (size_t)s.range(1, 64) : lk == 1 ? (size_t)s.range(65, 700) : (size_t)s.range(700, c.tier ? 1 << 20 : 1 << 16);
